@@ -219,6 +219,13 @@ class Loop:
             return T_ + Poly.const(1), True
         if eb is self.header:
             return T_, False
+        # the second half of a short-circuit loop condition (`ret == 0 && i < n`): tested before the body like the header test
+        from .cfg import dominators, dominates
+        idom = dominators(self.fn)
+        stay = [s_ for s_ in eb.succs if s_ in self.body]
+        rest = [b_ for b_ in self.body if b_ is not self.header and b_ is not eb and not dominates(idom, self.header, eb)]
+        if len(stay) == 1 and dominates(idom, self.header, eb) and all(dominates(idom, eb, l_) for l_ in self.latches):
+            return T_, False
         return None, None
 
     def entry_lower_bound(self, p):
